@@ -214,10 +214,11 @@ def axioms_audit(mods, theorems):
     -> ({thm: [axioms]}, raw text); statements are kept in axioms_audit.statements {thm: normalised type string}."""
     body = ''.join('import %s\n' % m for m in mods) + ''.join('#print axioms %s\n#check @%s\n' % (t, t) for t in theorems)
     d = os.path.join(LEAN, '.lake', 'audit'); os.makedirs(d, exist_ok=True)
-    f = os.path.join(d, 'Audit_%d.lean' % os.getpid())
+    tag = getattr(axioms_audit, 'tag', None) or ('pid%d' % os.getpid())
+    f = os.path.join(d, 'Audit_%s.lean' % tag)          # kept on disk: the evidence names it as the checker input
     open(f, 'w').write(body)
+    axioms_audit.last_file = os.path.relpath(f, LEAN)
     rc, out, err = lean_run([f])
-    os.unlink(f)
     res = {}
     txt = out + '\n' + err
     for m in re.finditer(r"'([^']+)' depends on axioms: \[([^\]]*)\]", txt, flags=re.S):
@@ -437,8 +438,9 @@ class Check:
         thms = []
         for m in list(prop_modules) + list(gen_modules):
             thms += theorems_in(m)
+        axioms_audit.tag = self.pid + ('' if prop_modules else '_gen')
         ax, txt = axioms_audit(mods, thms)
-        self.checker_cmds.append('lake env lean <generated #print axioms file over %d theorems>' % len(thms))
+        self.checker_cmds.append('cd lean && lake env lean %s   # #print axioms + #check of %d theorems' % (axioms_audit.last_file, len(thms)))
         ok = True
         # statement pinning: the statements of the property theorems are recorded in lean/pins/<id>.json (written only by
         # tools/pin.py, a deliberate action); a theorem that disappears or whose statement changes is a break, so a
@@ -509,6 +511,9 @@ class Check:
         self.dist['call_outcomes'] = {k: v for k, v in sorted(_OUTCOMES.items())}
 
     def finish(self):
+        if not self.obl:
+            sys.stderr.write('machinery failure: no Lean obligation was checked in this run, a proof-level verdict is impossible\n')
+            sys.stdout.flush(); os._exit(2)
         self._never_ok()
         os.makedirs(os.path.join(VERIF, 'replays'), exist_ok=True)
         EVD = os.environ.get('BCT_EVIDENCE', os.path.join(VERIF, 'evidence'))
